@@ -246,8 +246,8 @@ CreateSeries(L) ==
 \* engine drop flow (Engine.deleteSeriesRange tail): batch of series of this shard
 BeginDrop(B) ==
   /\ flow.pc = "idle" /\ nops < MaxOps
-  /\ B # {} /\ B \subseteq live
-  /\ Cardinality(B) = 1 \/ \E m \in Meas : B = LiveOf(live, m)
+  /\ B # {} /\ B \subseteq Vis          \* the engine finds the series through the series file: ids deleted there are out of reach
+  /\ Cardinality(B) = 1 \/ \E m \in Meas : B = LiveOf(Vis, m)
   /\ flow' = [pc |-> "series", todo |-> SortedSeq(B), batch |-> B, ms |-> MeasSeqOf(B), ents |-> <<>>, done |-> {}]
   /\ UNCHANGED <<live, tornM, tornT, sfl, gen, files, pset, cache, nent, nops, hist>>
 
